@@ -32,6 +32,9 @@
 (*   the fee collector unchanged; sequences never decrease; nobody else's  *)
 (*   sequence or balance moves.  CheckTx never touches the deliver state,  *)
 (*   and accepts neither a "bad" signature nor a stale (replayed) nonce.   *)
+(*   An Ethereum envelope may carry a BATCH of messages of several senders *)
+(*   (tx.parts): it is authorised only if EVERY message is; otherwise the   *)
+(*   whole transaction is rejected with the state unchanged.               *)
 (*   P never asserts that a valid transaction is accepted.                 *)
 (*                                                                         *)
 (* As-built machine M: CheckTx state and deliver state kept separately,    *)
@@ -52,7 +55,7 @@ CONSTANTS
     Signers,     \* e.g. {"s1","s2"}
     Nonces,      \* e.g. 0..2
     Routes,      \* routes of the exhaustive pool
-    Quals,       \* qualities of the exhaustive pool, subset of {"good","badsig","foreign","overdraft"}
+    Quals,       \* qualities of the exhaustive pool, subset of {"good","badsig","foreign","unprotected","overdraft"}
     MaxSub,      \* bound on the number of submissions of a behaviour
     MaxBlocks,   \* bound on the number of commits
     MaxLen,      \* length of simulated scripts
@@ -79,43 +82,68 @@ SameDeliver(s, t) ==
     /\ t.seq = s.seq
     /\ HasBal(s) => (t.bal = s.bal /\ t.coll = s.coll)
 
+\* The signed parts of a transaction: an Ethereum envelope is a BATCH of messages, each with its
+\* own signer, nonce and amount (recorded in tx.parts when they differ; otherwise nm messages of
+\* tx.signer with consecutive nonces); a Cosmos transaction is one part whatever its messages.
+Parts(tx) ==
+    IF "parts" \in DOMAIN tx THEN tx.parts
+    ELSE IF IsEth(tx.route)
+         THEN [i \in 1..tx.nm |-> [signer |-> tx.signer, nonce |-> tx.nonce + i - 1, amount |-> tx.amount]]
+         ELSE <<[signer |-> tx.signer, nonce |-> tx.nonce, amount |-> BigMul(tx.amount, BigOfInt(tx.nm))]>>
+PartSigners(tx) == {Parts(tx)[i].signer : i \in DOMAIN Parts(tx)}
+\* how many sequence numbers of account a the transaction carries
+Use(tx, a) == Cardinality({i \in DOMAIN Parts(tx) : Parts(tx)[i].signer = a})
+\* every part carries the current sequence of its signer, counting the earlier parts of the batch
+NonceMatch(tx, seq) ==
+    LET ps == Parts(tx) IN
+    \A i \in DOMAIN ps :
+        ps[i].nonce = seq[ps[i].signer] + Cardinality({j \in 1..(i - 1) : ps[j].signer = ps[i].signer})
+SumParts(tx, S) ==
+    LET ps == Parts(tx)
+        F[i \in 0..Len(ps)] == IF i = 0 THEN "0"
+                               ELSE IF ps[i].signer \in S THEN BigAdd(F[i - 1], ps[i].amount) ELSE F[i - 1]
+    IN F[Len(ps)]
+
 \* what the signed transfer(s) must have done when executed
 EffectOK(tx, s, t) ==
     HasBal(s) =>
-      LET moved == BigMul(tx.amount, BigOfInt(tx.nm)) IN
-      /\ BigEq(t.bal[tx.rcpt], BigAdd(s.bal[tx.rcpt], moved))
-      /\ BigLE(t.bal[tx.signer], BigSub(s.bal[tx.signer], moved))
-      /\ \A b \in DOMAIN s.bal \ {tx.signer, tx.rcpt} : t.bal[b] = s.bal[b]
+      /\ BigEq(t.bal[tx.rcpt], BigAdd(s.bal[tx.rcpt], SumParts(tx, PartSigners(tx))))
+      /\ \A a \in PartSigners(tx) : BigLE(t.bal[a], BigSub(s.bal[a], SumParts(tx, {a})))
+      /\ \A b \in DOMAIN s.bal \ (PartSigners(tx) \cup {tx.rcpt}) : t.bal[b] = s.bal[b]
 
 \* an authorised transaction that failed may have paid its fee and consumed its sequence
 \* numbers, nothing else
 FailedAuthOK(tx, s, t) ==
-    /\ t.seq[tx.signer] \in s.seq[tx.signer] .. (s.seq[tx.signer] + Adv(tx))
+    /\ \A a \in PartSigners(tx) : t.seq[a] \in s.seq[a] .. (s.seq[a] + Use(tx, a))
     /\ HasBal(s) =>
-         /\ BigLE(t.bal[tx.signer], s.bal[tx.signer])
-         /\ \A b \in DOMAIN s.bal \ {tx.signer} : t.bal[b] = s.bal[b]
+         /\ \A a \in PartSigners(tx) : BigLE(t.bal[a], s.bal[a])
+         /\ \A b \in DOMAIN s.bal \ PartSigners(tx) : t.bal[b] = s.bal[b]
 
-\* the clauses of P a deliver-mode submission breaks ({} = none)
+\* the clauses of P a deliver-mode submission breaks ({} = none).  e.sig = "bad" when ANY message
+\* of the transaction is not authorised: then the WHOLE transaction must be rejected, nothing
+\* executed, no sequence moved, no fee charged.
 DeliverBroken(e, s, t, executed) ==
-    LET tx == e.tx  a == tx.signer
-        unauth == e.sig = "bad" \/ tx.nonce # s.seq[a]
+    LET tx == e.tx
+        unauth == e.sig = "bad" \/ ~NonceMatch(tx, s.seq)
     IN  (IF \E b \in DOMAIN s.seq : t.seq[b] < s.seq[b] THEN {"sequence-decreased"} ELSE {})
-   \cup (IF \E b \in DOMAIN s.seq \ {a} : t.seq[b] # s.seq[b] THEN {"other-sequence-moved"} ELSE {})
+   \cup (IF \E b \in DOMAIN s.seq \ PartSigners(tx) : t.seq[b] # s.seq[b] THEN {"other-sequence-moved"} ELSE {})
    \cup (IF e.ok
          THEN (IF e.sig = "bad" THEN {"executed-without-valid-signature"} ELSE {})
-         \cup (IF tx.nonce # s.seq[a] THEN {"executed-with-wrong-nonce"} ELSE {})
+         \cup (IF ~NonceMatch(tx, s.seq) THEN {"executed-with-wrong-nonce"} ELSE {})
          \cup (IF tx.id \in executed THEN {"executed-twice"} ELSE {})
-         \cup (IF t.seq[a] # s.seq[a] + Adv(tx) THEN {"sequence-not-advanced-exactly"} ELSE {})
+         \cup (IF \E a \in PartSigners(tx) \cap DOMAIN s.seq : t.seq[a] # s.seq[a] + Use(tx, a)
+               THEN {"sequence-not-advanced-exactly"} ELSE {})
          \cup (IF e.sig = "bad" \/ EffectOK(tx, s, t) THEN {} ELSE {"effect-differs-from-signed-content"})
          ELSE IF unauth
               THEN (IF SameDeliver(s, t) THEN {} ELSE {"rejected-unauthorised-changed-state"})
               ELSE (IF FailedAuthOK(tx, s, t) THEN {} ELSE {"failed-authorised-overreached"}))
 
 CheckBroken(e, s, t) ==
-    LET tx == e.tx  a == tx.signer IN
+    LET tx == e.tx  ps == Parts(e.tx) IN
         (IF SameDeliver(s, t) THEN {} ELSE {"checktx-changed-deliver-state"})
    \cup (IF e.ok /\ e.sig = "bad" THEN {"checktx-accepted-without-valid-signature"} ELSE {})
-   \cup (IF e.ok /\ tx.nonce < s.cseq[a] THEN {"checktx-accepted-replayed-nonce"} ELSE {})
+   \cup (IF e.ok /\ \E i \in DOMAIN ps : ps[i].nonce < s.cseq[ps[i].signer]
+         THEN {"checktx-accepted-replayed-nonce"} ELSE {})
    \cup (IF \E b \in DOMAIN s.cseq : t.cseq[b] < s.cseq[b] THEN {"check-sequence-decreased"} ELSE {})
 
 CommitBroken(s, t) == IF t.seq = s.seq THEN {} ELSE {"commit-changed-sequence"}
@@ -146,9 +174,11 @@ vars == <<st, hist, executed, twice, nblocks>>
 
 QualSig(q) == IF q \in {"good", "overdraft"} THEN "good" ELSE "bad"
 
-MkTx(a, n, r, q, m) ==
-    [id |-> a \o ":" \o ToString(n) \o ":" \o r \o ":" \o q \o ":" \o ToString(m),
-     signer |-> a, rcpt |-> "r", amount |-> "1", nonce |-> n, nm |-> m, route |-> r, q |-> q]
+\* qpos: which message of an Ethereum batch carries the flaw q (the others are valid)
+MkTxP(a, n, r, q, m, p) ==
+    [id |-> a \o ":" \o ToString(n) \o ":" \o r \o ":" \o q \o ":" \o ToString(m) \o ":" \o ToString(p),
+     signer |-> a, rcpt |-> "r", amount |-> "1", nonce |-> n, nm |-> m, route |-> r, q |-> q, qpos |-> p]
+MkTx(a, n, r, q, m) == MkTxP(a, n, r, q, m, 1)
 
 Pool == {MkTx(a, n, r, q, 1) : a \in Signers, n \in Nonces, r \in Routes, q \in Quals}
 
@@ -161,7 +191,7 @@ Init ==
 \*   nonce: EthIncrementSenderSequenceDecorator (per message), SigVerification (per tx)
 AnteOK(tx, cur) ==
     /\ (tx.q \notin {"badsig"} \/ "sig_not_checked" \in Defects)
-    /\ (tx.q # "foreign" \/ "chain_not_checked" \in Defects)
+    /\ (tx.q \notin {"foreign", "unprotected"} \/ "chain_not_checked" \in Defects)
     /\ (tx.nonce = cur \/ "nonce_not_checked" \in Defects)
 AnteSeq(tx, cur) == IF "no_increment" \in Defects THEN cur ELSE cur + Adv(tx)
 
@@ -253,8 +283,11 @@ SimTx(h) ==
     IF Earlier(h) # {} /\ Pick(1..4, h) = 1 THEN Pick(Earlier(h), h)
     ELSE LET a == Pick(SimSigners, h)
              r == Pick(AllRoutes, h)
-             m == IF IsEth(r) /\ Pick(1..6, h) = 1 THEN 2 ELSE 1
-         IN MkTx(a, SimNonce(a, h), r, SimQual(h), m)
+             m == IF IsEth(r) /\ Pick(1..4, h) = 1 THEN Pick(2..3, h) ELSE 1
+             q0 == SimQual(h)
+             \* a pre-EIP-155 signature exists for legacy transactions only
+             q == IF q0 = "foreign" /\ r = "eth-legacy" /\ Pick(1..2, h) = 1 THEN "unprotected" ELSE q0
+         IN MkTxP(a, SimNonce(a, h), r, q, m, Pick(1..m, h))
 
 SimInit ==
     /\ st = [seq |-> [a \in SimSigners |-> 0], cseq |-> [a \in SimSigners |-> 0]]
@@ -355,7 +388,21 @@ SdkCases ==
     \cup Cs(LegacyE712, "web3FeePayer", {"victim", "attacker", "empty"})
     \cup Cs(LegacyE712, "web3FeePayerSig", {"flip", "empty", "other-signer", "truncate", "v-27"})
 
-Cases == EthCases \cup SdkCases
+\* Ethereum BATCHES: one envelope with 2-3 messages of which exactly one is not authorised, in
+\* every position, all messages of one sender ("same") or the offending one of another sender
+\* than the rest ("diff").  mut = <offence>@<position>/<size>:<mix>; route = type of the offending
+\* message.  Offences: a pre-EIP-155 signature, a signature for another chain id, the very bytes
+\* of an already executed message, a stale nonce, a nonce gap, a corrupted signature, From naming
+\* somebody else.  The repaired batch (offending message replaced by a valid one) is delivered
+\* afterwards and must be acceptable.
+BatchOffences(r) == {"foreign", "replay", "stale", "gap", "badsig", "from-other"}
+                    \cup (IF r = "eth-legacy" THEN {"unprotected"} ELSE {})
+BatchShapes == {<<1, 2>>, <<2, 2>>, <<1, 3>>, <<2, 3>>, <<3, 3>>}
+BatchMut(o, sh, mix) == o \o "@" \o ToString(sh[1]) \o "/" \o ToString(sh[2]) \o ":" \o mix
+BatchCases == UNION {{[route |-> r, field |-> "batch", mut |-> BatchMut(o, sh, mix)] :
+                         o \in BatchOffences(r), sh \in BatchShapes, mix \in {"same", "diff"}} : r \in EthRoutes}
+
+Cases == EthCases \cup SdkCases \cup BatchCases
 
 EnvelopeFields == {"From", "Hash", "Size", "envFeeAmount", "envGasLimit", "envFeePayer", "envFeeGranter", "envMemo",
                    "envTimeoutHeight", "envSignatures", "envSignerInfos", "envExtensionOptions",
@@ -365,6 +412,7 @@ SigFields == {"v", "r", "s", "vrs", "signature", "signatures", "web3FeePayerSig"
 \* what the statement demands of a case
 ClassOf(c) ==
     IF c.field = "signedFor" THEN "foreign"
+    ELSE IF c.field = "batch" THEN "batch"
     ELSE IF c.field = "msgs" /\ c.mut = "duplicate" THEN "replay"
     ELSE IF c.field \in EnvelopeFields THEN "envelope"
     \* the same valid signature in another encoding (high-s twin, appended recovery byte,
@@ -389,7 +437,7 @@ ClassOf(c) ==
     ELSE IF c.field = "accountNumber" THEN "equiv"
     ELSE "signed"
 
-MustReject == {"signed", "sig", "foreign", "replay"}
+MustReject == {"signed", "sig", "foreign", "replay", "batch"}
 SigOfClass(cl) == IF cl \in MustReject THEN "bad" ELSE "may"
 
 \* depth-1 machine: TLC enumerates the matrix and prints every case for the harness
